@@ -84,6 +84,7 @@ def write_layout(root, groups, layout):
     tmp = os.path.join(root + '_tmp')
     os.makedirs(tmp)
     zips = {}
+    twinned = set()
     for i, f in enumerate(layout['files']):
         recs = [record(groups[g]['inputs'], groups[g]['trials'][lo:hi])
                 for g, lo, hi in f['chunks']]
@@ -93,8 +94,9 @@ def write_layout(root, groups, layout):
             # results_N.json and results_N.json.gz side by side (two runs of
             # one task, one of them compressed): same stem, different trials
             j = f['twin'] % len(layout['files'])
-            if layout['files'][j]['kind'] == 'json' and j != i:
+            if layout['files'][j]['kind'] == 'json' and j != i and j not in twinned:
                 name = f'res_{j:02d}'
+                twinned.add(j)          # one gzip twin per plain file
         # a file holding one record may be a bare dict (what
         # BaseSimulation.save_results writes) instead of a one-element list
         single = recs[0] if (len(recs) == 1 and f.get('bare')) else recs
